@@ -33,6 +33,18 @@ EXPECT = {  # seed directory -> harnesses expected to catch it
  "C17-ke1-nonce-overlaps-key-seed": ["s3_client_login_start_pw2"],
  "C18-swallow-public-key-error": ["w2_server_login_start_external_key"],
  "C19-ristretto-sk-252-bit-assumption": ["g4_ristretto_sk_boundaries"],
+ # wave 4
+ "C01-login-ignores-ksf-params": ["w3e_login_finish_early"],
+ "C01-serde-envelope-mode-zeroed": ["dr_server_registration", "ds_server_registration"],
+ "C04-x25519-msb-mask": ["g2_x25519_pk_roundtrip"],
+ "C04-ke2-mac-trailing": ["d_cred_resp"],
+ "C08-serde-legacy-fake-keypair": ["ds_short_setup"],
+ "C10-server-setup-short-fake-key": ["d_setup", "g5_p256_sk_lengths"],
+ "C11-hoist-identity-check": ["gs_ristretto_pk_identity"],
+ "C11-nist-sk-from-repr": ["g5_p256_sk_decode"],
+ "C13-ke2state-serde-shadow-order": ["dr_server_login", "ds_server_login"],
+ "C16-pw-line-ending": ["s2_client_reg_start_pw2", "s6_pwd_key_len3"],
+ "C19-x25519-dh-skip-clamp": ["g7_x25519_dh_vectors"],
 }
 def sh(cmd, **kw):
     return subprocess.run(cmd, shell=True, stdout=subprocess.PIPE, stderr=subprocess.STDOUT, text=True, **kw)
